@@ -32,8 +32,9 @@ def run(chk):
     text = open(os.path.join(work, "raftkvs.tla")).read()
     quick = chk.quick()
 
+    parts = os.environ.get("VERIF_C08_PARTS", "1234")   # development aid: run only some parts
     # 1. design level
-    jobs = [("MC_n1", dict(workers=4, timeout=900)), ("MC_n2_small", dict(workers=12, timeout=2400))]
+    jobs = [("MC_n1", dict(workers=4, timeout=900)), ("MC_n2_small", dict(workers=12, timeout=2400))] if "1" in parts else []
     if not quick:
         jobs.append(("MC_n2", dict(workers=14, timeout=3000, extra=[])))
     for name, kw in jobs:
@@ -44,8 +45,8 @@ def run(chk):
             continue
         res = V.tlc(work, "RaftFIFO", cfg=name + ".cfg", deadlock=False, **kw)
         chk.add_tlc("RaftFIFO %s exhaustive" % name, res)
-    sims = [("MC_n3_sim", 45 if quick else 400, 160)]
-    if not quick:
+    sims = [("MC_n3_sim", 45 if quick else 400, 160)] if "1" in parts else []
+    if not quick and "1" in parts:
         sims += [("MC_n3_2c_sim", 300, 200), ("MC_n5_sim", 300, 200)]
     for name, budget, depth in sims:
         for i, res in enumerate(V.tlc_simulate_budget(work, "RaftFIFO", name + ".cfg", budget, depth, chk.seed, workers=8)):
@@ -54,6 +55,8 @@ def run(chk):
     # 2. real-code executions (spec-faithful executor), per-link FIFO network
     drv = V.build_driver("sysdrv", chk.bindir)
     plans = [(3, 2, 1, 4, 500)] if quick else [(1, 1, 0, 4, 300), (2, 2, 1, 6, 800), (3, 2, 1, 12, 1200), (4, 2, 1, 6, 1000), (5, 3, 2, 6, 1200)]
+    if "2" not in parts:
+        plans = []
     for (n, clients, maxfail, runs, steps) in plans:
         args = "fifo=1,clients=%d,maxfail=%d,fail=%d,buffer=3,strings=2" % (clients, maxfail, 1 if maxfail else 0)
         out = S.drive(chk, drv, "raftkvs", n, "biased", runs, steps, args=args, tag="-c%d" % clients)
@@ -67,8 +70,9 @@ def run(chk):
 
     # 3. guided replay of TLC behaviours of the FIFO spec through the generated code (S->I)
     gcfg = "MC_n3_sim.cfg"
-    res, behs = T.simulate_behaviours(work, "RaftFIFO", gcfg, 3 if quick else 40, 60 if quick else 120, chk.seed, timeout=900)
-    chk.add_tlc("RaftFIFO MC_n3_sim behaviours for guided replay", res)
+    res, behs = (None, []) if "3" not in parts else T.simulate_behaviours(work, "RaftFIFO", gcfg, 3 if quick else 40, 60 if quick else 120, chk.seed, timeout=900)
+    if res is not None:
+        chk.add_tlc("RaftFIFO MC_n3_sim behaviours for guided replay", res)
     for b in behs:
         for st in b:  # the Go dump has no `order` variable
             st["state"] = st["state"].replace("]", "]")
@@ -80,6 +84,55 @@ def run(chk):
         rs = T.load_steps(gout)
         S.validate_executions(chk, "C08", work, "raftkvs", text, rs, consts(3, 1, True, 1, 3), INV, ["LeaderAppendOnly"],
                               what="raftkvs guided n=3", chunks=4, timeout=2400, conform=False)
+    # 4. walks deep into the reachable space with ALL successors of every visited state (fresh-context executor):
+    #    the Raft invariants and the look-ahead oracle ElectableComplete (spec/C08/RaftAhead.tla; an invariant of
+    #    the design, checked by the TLC jobs above) are evaluated by TLC in every one of these real-code states.
+    #    A look-ahead alarm is not a verdict by itself: the driver replays the walk to the flagged state and
+    #    explores directed continuations (only the would-be winner's election timer fires); the verdict is a
+    #    Raft invariant violated in a state of such a real-code continuation.
+    variables = T.extract_vars(text)
+    wplans = [(3, 1, 1, 4, 400)] if quick else [(3, 2, 1, 16, 700), (5, 2, 2, 4, 600), (2, 1, 0, 4, 400)]
+    if "4" not in parts:
+        wplans = []
+    wstats = []
+    for (n, clients, maxfail, runs, steps) in wplans:
+        args = "fifo=1,clients=%d,maxfail=%d,fail=%d,buffer=3,strings=2" % (clients, maxfail, 1 if maxfail else 0)
+        edges = 40000
+        out = S.drive(chk, drv, "raftkvs", n, "walk-biased", runs, steps, args=args, tag="-ahead", fanout=edges)
+        cs = consts(n, clients, maxfail > 0, maxfail, 3)
+        what = "raftkvs walk n=%d clients=%d maxfail=%d" % (n, clients, maxfail)
+        st, flagged = S.walk_safety(chk, "C08", work, "RaftAhead", variables, out, cs, INV + ["ElectableComplete"], what, piece=9000)
+        st["confirmed"] = 0
+        for f in flagged[:6]:
+            ln = f["line"] or {}
+            if f["invariant"] != "ElectableComplete":
+                chk.violation("C08:%s:walk:%s" % (f["invariant"], ln.get("label")),
+                              "%s: %s in a state the generated code reaches (%s of walk %d, step %d, label %s)" % (what, f["tlc"], f["kind"], f["run"] + 1, f["step"], ln.get("label")),
+                              {"what": what, "meta": f["meta"], "kind": f["kind"], "step": f["step"], "proc": ln.get("proc"), "label": ln.get("label"),
+                               "choices": ln.get("choices"), "changed": ln.get("d"), "pre_state": f["pre_state"], "state": f["state"]})
+                continue
+            cont = {"run": f["run"] + 1, "step": f["step"], "walks": 12 if quick else 40, "len": 140}
+            if f["kind"] == "succ":
+                cont.update({"proc": ln.get("proc"), "label": ln.get("label"), "choices": [c["got"] if isinstance(c, dict) else c for c in (ln.get("choices") or [])]})
+            cout = S.drive(chk, drv, "raftkvs", n, "walk-biased", runs, steps, args=args, tag="-cont%d" % len(wstats), fanout=edges, cont=cont)
+            fails = [l for l in V.read_jsonl(cout) if l["e"] == "cont-fail"]
+            if fails:
+                chk.drift.append({"what": what, "lookahead": "ElectableComplete flagged, state could not be re-created", "msg": fails[0].get("msg")})
+                continue
+            st2, fl2 = S.walk_safety(chk, "C08", work, "RaftAhead", variables, cout, cs, INV, what + " continuation", piece=9000)
+            if fl2:
+                g = fl2[0]
+                st["confirmed"] += 1
+                chk.violation("C08:%s:lookahead-confirmed:%s" % (g["invariant"], ln.get("label")),
+                              "%s: after the step at label %s (process %s) some server that can win an election lacks a committed entry; a continuation of that real-code execution "
+                              "(only message deliveries and the election time-out of one server) reaches a state in which %s" % (what, ln.get("label"), ln.get("proc"), g["tlc"]),
+                              {"what": what, "meta": f["meta"], "flagged": {"kind": f["kind"], "step": f["step"], "proc": ln.get("proc"), "label": ln.get("label"), "choices": ln.get("choices"), "changed": ln.get("d")},
+                               "pre_state": f["pre_state"], "continuation": g["meta"], "continuation_step": g["step"], "violating_state": g["state"]})
+            else:
+                chk.drift.append({"what": what, "lookahead": "ElectableComplete flagged at %s step %d label %s; %d directed continuations did not reach a violation of the stated invariants" % (f["kind"], f["step"], ln.get("label"), 3 * cont["walks"])})
+        wstats.append(dict(st, n=n, runs=runs, steps=steps))
+    chk.notes["walks_with_lookahead"] = wstats
+
     chk.assumptions += ["TLC/SANY", "per-link FIFO delivery (the property's quantifier): enforced by RaftFIFO.tla at design level and by the executor's network",
                         "spec-state env resources (harness/internal/sysdefs/raftkvs.go) implement the ten mapping macros of raftkvs.tla; every state they produce is validated against raftkvs.tla",
                         "MaxTerm/MaxCommitIndex are model-checking constraints only; executions are not bounded by them"]
